@@ -1298,6 +1298,99 @@ let set_names s n0 =
     adict = s.adict; strict = s.strict; kind = s.kind; names = n0; dflt =
     s.dflt }
 
+(** val set_span : state -> z list -> state **)
+
+let set_span s sp =
+  { span = sp; index = s.index; vars = s.vars; registry = s.registry; adict =
+    s.adict; strict = s.strict; kind = s.kind; names = s.names; dflt =
+    s.dflt }
+
+(** val set_index : state -> char list list -> state **)
+
+let set_index s i =
+  { span = s.span; index = i; vars = s.vars; registry = s.registry; adict =
+    s.adict; strict = s.strict; kind = s.kind; names = s.names; dflt =
+    s.dflt }
+
+(** val set_dflt : state -> dreq option -> state **)
+
+let set_dflt s d =
+  { span = s.span; index = s.index; vars = s.vars; registry = s.registry;
+    adict = s.adict; strict = s.strict; kind = s.kind; names = s.names;
+    dflt = d }
+
+(** val underscored : char list -> bool **)
+
+let underscored = function
+| [] -> false
+| c::_ -> (=) c '_'
+
+(** val bookkeeping : ckind -> char list -> bool **)
+
+let bookkeeping k name =
+  (||)
+    ((||)
+      ((||) (eqb0 name ('s'::('p'::('a'::('n'::[])))))
+        (eqb0 name ('i'::('n'::('d'::('e'::('x'::[]))))))) (underscored name))
+    (match k with
+     | CVC -> false
+     | _ ->
+       (||) (eqb0 name ('n'::('a'::('m'::('e'::('s'::[]))))))
+         (eqb0 name ('d'::('t'::('y'::('p'::('e'::[])))))))
+
+(** val as_int_list : operand -> z list option **)
+
+let as_int_list = function
+| OSeq (_, items) ->
+  fold_right (fun i acc ->
+    match i with
+    | OScalar v ->
+      (match v with
+       | PInt z0 -> (match acc with
+                     | Some l -> Some (z0 :: l)
+                     | None -> None)
+       | _ -> None)
+    | _ -> None) (Some []) items
+| ORange (a, b, c) -> Some (range_list a b c)
+| _ -> None
+
+(** val as_str_list : operand -> char list list option **)
+
+let as_str_list = function
+| OSeq (_, items) ->
+  fold_right (fun i acc ->
+    match i with
+    | OScalar v ->
+      (match v with
+       | PStr x -> (match acc with
+                    | Some l -> Some (x :: l)
+                    | None -> None)
+       | _ -> None)
+    | _ -> None) (Some []) items
+| _ -> None
+
+(** val as_dreq : operand -> dreq option **)
+
+let as_dreq = function
+| OScalar v ->
+  (match v with
+   | PStr x ->
+     if eqb0 x ('f'::('l'::('o'::('a'::('t'::[])))))
+     then Some RFloat
+     else if eqb0 x ('i'::('n'::('t'::[])))
+          then Some RInt
+          else if eqb0 x ('b'::('o'::('o'::('l'::[]))))
+               then Some RBool
+               else if eqb0 x ('s'::('t'::('r'::[]))) then Some RStr else None
+   | _ -> None)
+| _ -> None
+
+(** val tail_of : char list -> char list **)
+
+let tail_of = function
+| [] -> []
+| _::r -> r
+
 type res = state * unit outcome
 
 (** val ok : state -> res **)
@@ -1832,30 +1925,69 @@ let values_setter pycast arrcast infer value s =
      | Raise e -> err s e)
   | _ -> set_rows_full pycast arrcast infer (row_names s) value s
 
+(** val book_setattr : char list -> operand -> state -> res **)
+
+let book_setattr name value s =
+  if eqb0 name ('s'::('p'::('a'::('n'::[]))))
+  then (match as_int_list value with
+        | Some l -> ok (set_span s l)
+        | None -> err s OtherError)
+  else if eqb0 name ('i'::('n'::('d'::('e'::('x'::[])))))
+       then (match as_str_list value with
+             | Some l -> ok (set_index s l)
+             | None -> err s OtherError)
+       else if eqb0 name ('n'::('a'::('m'::('e'::('s'::[])))))
+            then (match as_str_list value with
+                  | Some l ->
+                    ok
+                      (set_adict (set_names s l)
+                        (assoc_set name value s.adict))
+                  | None -> err s OtherError)
+            else if eqb0 name ('d'::('t'::('y'::('p'::('e'::[])))))
+                 then (match as_dreq value with
+                       | Some d ->
+                         ok
+                           (set_adict (set_dflt s (Some d))
+                             (assoc_set name value s.adict))
+                       | None -> err s OtherError)
+                 else if (||)
+                           (eqb0 name
+                             ('_'::('a'::('t'::('t'::('r'::('i'::('b'::('u'::('t'::('e'::('s'::[]))))))))))))
+                           (eqb0 name
+                             ('_'::('s'::('t'::('r'::('i'::('c'::('t'::[]))))))))
+                      then err s OtherError
+                      else (match assoc (tail_of name) s.vars with
+                            | Some _ -> err s OtherError
+                            | None ->
+                              ok (set_adict s (assoc_set name value s.adict)))
+
 (** val obj_setattr :
     (dtype -> pyval -> pyval outcome) -> (dtype -> dtype -> pyval -> pyval
     outcome) -> (pyval list -> dtype) -> char list -> operand -> state -> res **)
 
 let obj_setattr pycast arrcast infer name value s =
-  if eqb0 name ('s'::('t'::('r'::('i'::('c'::('t'::[]))))))
-  then (match truthy value with
-        | Ret b -> ok (set_strict s b)
-        | Raise e -> err s e)
-  else if eqb0 name ('v'::('a'::('l'::('u'::('e'::('s'::[]))))))
-       then values_setter pycast arrcast infer value s
-       else if (||) (eqb0 name ('s'::('i'::('z'::('e'::[])))))
-                 (eqb0 name ('n'::('b'::('y'::('t'::('e'::('s'::[])))))))
-            then err s AttributeError
-            else if match s.kind with
-                    | CLinker _ ->
-                      (||)
-                        ((||)
-                          (eqb0 name ('s'::('i'::('z'::('e'::('s'::[]))))))
-                          (eqb0 name ('L'::('A'::('G'::('S'::[]))))))
-                        (eqb0 name ('L'::('E'::('A'::('D'::('S'::[]))))))
-                    | _ -> false
+  if bookkeeping s.kind name
+  then book_setattr name value s
+  else if eqb0 name ('s'::('t'::('r'::('i'::('c'::('t'::[]))))))
+       then (match truthy value with
+             | Ret b -> ok (set_strict s b)
+             | Raise e -> err s e)
+       else if eqb0 name ('v'::('a'::('l'::('u'::('e'::('s'::[]))))))
+            then values_setter pycast arrcast infer value s
+            else if (||) (eqb0 name ('s'::('i'::('z'::('e'::[])))))
+                      (eqb0 name ('n'::('b'::('y'::('t'::('e'::('s'::[])))))))
                  then err s AttributeError
-                 else ok (set_adict s (assoc_set name value s.adict))
+                 else if match s.kind with
+                         | CLinker _ ->
+                           (||)
+                             ((||)
+                               (eqb0 name
+                                 ('s'::('i'::('z'::('e'::('s'::[]))))))
+                               (eqb0 name ('L'::('A'::('G'::('S'::[]))))))
+                             (eqb0 name ('L'::('E'::('A'::('D'::('S'::[]))))))
+                         | _ -> false
+                      then err s AttributeError
+                      else ok (set_adict s (assoc_set name value s.adict))
 
 (** val add_attribute :
     (dtype -> pyval -> pyval outcome) -> (dtype -> dtype -> pyval -> pyval
@@ -1973,6 +2105,28 @@ let rec replace_values pycast arrcast infer itemseq_exn kvs s =
      | Ret _ -> replace_values pycast arrcast infer itemseq_exn r s'
      | Raise e -> (s', (Raise e)))
 
+(** val storage_taken : char list -> state -> bool **)
+
+let storage_taken name s =
+  (||)
+    ((||)
+      ((||)
+        ((||)
+          (eqb0 name
+            ('a'::('t'::('t'::('r'::('i'::('b'::('u'::('t'::('e'::('s'::[])))))))))))
+          (eqb0 name ('s'::('t'::('r'::('i'::('c'::('t'::[]))))))))
+        (match s.kind with
+         | CLinker _ ->
+           (||) (eqb0 name ('L'::('A'::('G'::('S'::[])))))
+             (eqb0 name ('L'::('E'::('A'::('D'::('S'::[]))))))
+         | _ -> false))
+      (match assoc name s.vars with
+       | Some _ -> true
+       | None -> false))
+    (match assoc ('_'::name) s.adict with
+     | Some _ -> true
+     | None -> false)
+
 (** val base_add_variable :
     (dtype -> pyval -> pyval outcome) -> (dtype -> dtype -> pyval -> pyval
     outcome) -> (pyval list -> dtype) -> (dtype -> pyval list -> dreq ->
@@ -1981,59 +2135,61 @@ let rec replace_values pycast arrcast infer itemseq_exn kvs s =
 let base_add_variable pycast arrcast infer astype_dt name value dt s =
   if mem name s.index
   then err s DuplicateNameError
-  else let n0 = n_of s in
-       if is_sequence value
-       then (match natural pycast infer value with
-             | Ret a ->
-               let (p, cells) = a in
-               let (d, sh) = p in
-               let a0 = ((d, (prod_shape sh)), cells) in
-               let (p0, cells0) = a0 in
-               let (d0, m0) = p0 in
-               (match match dt with
-                      | Some r ->
-                        let d1 = astype_dt d0 cells0 r in
-                        (match cast_all (arrcast d0 d1) cells0 with
-                         | Ret cs -> Ret (d1, cs)
-                         | Raise e -> Raise e)
-                      | None -> Ret (d0, cells0) with
-                | Ret a1 ->
-                  let (d1, cells1) = a1 in
-                  if negb (Nat.eqb m0 n0)
-                  then err s DimensionError
-                  else ok
-                         (set_index_vars s (app s.index (name :: []))
-                           (assoc_set name { vdtype = d1; vshape =
-                             (m0 :: []); vdata = cells1 } s.vars))
-                | Raise e -> err s e)
-             | Raise e -> err s e)
-       else (match natural pycast infer value with
-             | Ret a ->
-               let (p, cells) = a in
-               let (d, sh) = p in
-               (match bcast_arr n0 sh cells with
-                | Some cs ->
-                  let a0 = ((d, n0), cs) in
-                  let (p0, cells0) = a0 in
-                  let (d0, m0) = p0 in
-                  (match match dt with
-                         | Some r ->
-                           let d1 = astype_dt d0 cells0 r in
-                           (match cast_all (arrcast d0 d1) cells0 with
-                            | Ret cs0 -> Ret (d1, cs0)
-                            | Raise e -> Raise e)
-                         | None -> Ret (d0, cells0) with
-                   | Ret a1 ->
-                     let (d1, cells1) = a1 in
-                     if negb (Nat.eqb m0 n0)
-                     then err s DimensionError
-                     else ok
-                            (set_index_vars s (app s.index (name :: []))
-                              (assoc_set name { vdtype = d1; vshape =
-                                (m0 :: []); vdata = cells1 } s.vars))
-                   | Raise e -> err s e)
-                | None -> let e = ValueError in err s e)
-             | Raise e -> err s e)
+  else if storage_taken name s
+       then err s DuplicateNameError
+       else let n0 = n_of s in
+            if is_sequence value
+            then (match natural pycast infer value with
+                  | Ret a ->
+                    let (p, cells) = a in
+                    let (d, sh) = p in
+                    let a0 = ((d, (prod_shape sh)), cells) in
+                    let (p0, cells0) = a0 in
+                    let (d0, m0) = p0 in
+                    (match match dt with
+                           | Some r ->
+                             let d1 = astype_dt d0 cells0 r in
+                             (match cast_all (arrcast d0 d1) cells0 with
+                              | Ret cs -> Ret (d1, cs)
+                              | Raise e -> Raise e)
+                           | None -> Ret (d0, cells0) with
+                     | Ret a1 ->
+                       let (d1, cells1) = a1 in
+                       if negb (Nat.eqb m0 n0)
+                       then err s DimensionError
+                       else ok
+                              (set_index_vars s (app s.index (name :: []))
+                                (assoc_set name { vdtype = d1; vshape =
+                                  (m0 :: []); vdata = cells1 } s.vars))
+                     | Raise e -> err s e)
+                  | Raise e -> err s e)
+            else (match natural pycast infer value with
+                  | Ret a ->
+                    let (p, cells) = a in
+                    let (d, sh) = p in
+                    (match bcast_arr n0 sh cells with
+                     | Some cs ->
+                       let a0 = ((d, n0), cs) in
+                       let (p0, cells0) = a0 in
+                       let (d0, m0) = p0 in
+                       (match match dt with
+                              | Some r ->
+                                let d1 = astype_dt d0 cells0 r in
+                                (match cast_all (arrcast d0 d1) cells0 with
+                                 | Ret cs0 -> Ret (d1, cs0)
+                                 | Raise e -> Raise e)
+                              | None -> Ret (d0, cells0) with
+                        | Ret a1 ->
+                          let (d1, cells1) = a1 in
+                          if negb (Nat.eqb m0 n0)
+                          then err s DimensionError
+                          else ok
+                                 (set_index_vars s (app s.index (name :: []))
+                                   (assoc_set name { vdtype = d1; vshape =
+                                     (m0 :: []); vdata = cells1 } s.vars))
+                        | Raise e -> err s e)
+                     | None -> let e = ValueError in err s e)
+                  | Raise e -> err s e)
 
 (** val add_variable :
     (dtype -> pyval -> pyval outcome) -> (dtype -> dtype -> pyval -> pyval
@@ -2603,11 +2759,24 @@ let starts_underscore = function
 | [] -> false
 | c::_ -> (=) c '_'
 
+(** val base_columns_with :
+    bool -> bool -> bool -> state -> char list list **)
+
+let base_columns_with st it incl s =
+  app
+    (if incl
+     then s.names
+     else filter (fun x -> negb (starts_underscore x)) s.names)
+    (app
+      (if st then ('s'::('t'::('a'::('t'::('u'::('s'::[])))))) :: [] else [])
+      (if it
+       then ('i'::('t'::('e'::('r'::('a'::('t'::('i'::('o'::('n'::('s'::[])))))))))) :: []
+       else []))
+
 (** val base_columns : state -> char list list **)
 
 let base_columns s =
-  app (filter (fun x -> negb (starts_underscore x)) s.names)
-    (('s'::('t'::('a'::('t'::('u'::('s'::[])))))) :: (('i'::('t'::('e'::('r'::('a'::('t'::('i'::('o'::('n'::('s'::[])))))))))) :: []))
+  base_columns_with true true false s
 
 (** val last_alias : amap_t -> char list -> char list option **)
 
@@ -2678,13 +2847,25 @@ let rename_columns am cols =
      | Ret rep -> Ret (map (fun c -> aget rep c) cols)
      | Raise e -> Raise e)
 
+(** val export_cols :
+    aobj -> char list list -> (char list * char list) list outcome **)
+
+let export_cols am cols =
+  match rename_columns am cols with
+  | Ret titles -> Ret (combine titles (map (resolve am) cols))
+  | Raise e -> Raise e
+
 (** val export : aobj -> state -> (char list * char list) list outcome **)
 
 let export am s =
-  let cols = base_columns s in
-  (match rename_columns am cols with
-   | Ret titles -> Ret (combine titles (map (resolve am) cols))
-   | Raise e -> Raise e)
+  export_cols am (base_columns s)
+
+(** val export_with :
+    aobj -> bool -> bool -> bool -> state -> (char list * char list) list
+    outcome **)
+
+let export_with am st it incl s =
+  export_cols am (base_columns_with st it incl s)
 
 (** val positions : z list -> z list -> (nat * nat) list **)
 
